@@ -5,7 +5,7 @@ V = os.path.dirname(os.path.dirname(os.path.abspath(__file__)))
 
 ZOO_NOTE = ("Trusted base: the scripted-world harness (harness/zoo.hpp), the trace analysis and the predicate for this property (written from the property statement), "
             "rapidcheck, libFuzzer and the sanitizer runtimes. Assumes the generators' input contract of DESIGN.md section 3 (asserted preconditions respected; a veto of a redirected request during activation excluded and counted). "
-            "Configuration space is sampled by a fixed zoo of 13 machine types; both header variants (shipped single header and development sources) are exercised.")
+            "Configuration space is sampled by a fixed zoo of 16 machine types; both header variants (shipped single header and development sources) are exercised.")
 
 P = {
  "C01": ("enter/exit automaton + observer agreement over generated API histories (rapidcheck stateful cases; libFuzzer in thorough)", "4.C01",
@@ -22,11 +22,11 @@ P = {
  "C11": ("history == survivor; hostile replica driven only by replay stays in lock-step (rapidcheck + libFuzzer)", "4.C11", "Authority histories with multi-round vetoes; a second instance with cancelling/redirecting guards is fed previousTransition().destination after every step."),
  "C12": ("save/load round trip over generated (saver, loader) histories + exhaustive (k, j) sweep for state counts up to 255", "4.C12", "Generated pairs on the zoo plus an exhaustive sweep over all (saver index, loader index or inactive) for the built sizes; canaries, canonicity, minimal callbacks."),
  "C13": ("bit-vector reference model for generated field sequences, all capacities 1..255 x widths 1..32; bitWidth over boundary+random (quick) / all 2^32 (thorough)", "4.C13", "Round-trip and differential against a one-bool-per-bit model after every write; exhaustive in capacity, generated in cursor/widths/values."),
- "C14": ("sizes harness: compile-time ids + seed-generated walks over every k for N in boundary set (quick) / every N 1..255 (thorough)", "4.C14", "Exhaustive in (N, k) for the sizes built; after every step only the requested state's callbacks ran and access<T>() is that object."),
+ "C14": ("sizes harness: compile-time ids + seed-generated walks over every k for N in boundary set (quick) / every N 1..255 (thorough); zoo pass: every callback ran on access<T>()", "4.C14", "Exhaustive in (N, k) for the sizes built; after every step only the requested state's callbacks ran and access<T>() is that object."),
  "C15": ("exactly-once + stated order per delivery for k = 0..3 injections (rapidcheck + libFuzzer)", "4.C15", "Every delivery block in every generated history is checked for exactly-once and for the stated forward / reverse order."),
  "C16": ("record<->delivery/action bijection within logging builds; digest equality across logger attach states (rapidcheck, FS_ALL and FS_VERBOSE)", "4.C16", "Logger events are interleaved into the trace; each action must be followed by its record, each record by its delivery; the same case is re-run with the logger never / always attached and digests compared."),
  "C17": ("digest equality across 3 memory fills; fork-and-compare copy vs original (rapidcheck + sanitizer replay + libFuzzer)", "4.C17", "Metamorphic: fill pattern must not matter; a copy taken at a generated point must answer the remaining history exactly like the original and leave it untouched."),
- "C18": ("ASan+UBSan over generated cases and libFuzzer campaigns, allocation counter armed during FFSM2 calls, alignment and canary oracles", "4.C18", "All generated cases also run in the sanitized build; any report, allocation, misalignment or fill-dependence is a violation."),
+ "C18": ("ASan+UBSan over generated cases (zoo and containers) and libFuzzer campaigns, allocation counter armed during FFSM2 calls, alignment and canary oracles, fill differentials; valgrind in thorough", "4.C18", "All generated cases also run in the sanitized build; any report, allocation, misalignment or fill-dependence is a violation."),
  "C19": ("enumerated switch matrix (compile / build+run) + feature-neutral generated scenarios compared across runners + join.py byte comparison", "4.C19", "2^8 switches x 4 standards x 2 compilers x 2 headers enumerated (thorough: all 4112 rows); generated core-API scenarios must produce identical digests on runners built with different switch subsets."),
  "C20": ("std::vector<bool>/std::vector models for generated op sequences, every capacity 1..255 (rapidcheck, plain + sanitized) + iteration probe", "4.C20", "Model-based comparison after every operation; capacities enumerated, sequences generated and shrunk."),
 }
